@@ -57,7 +57,7 @@ def plan(tier, seed):
     shards.append({"kind": "script_enum", "label": "script_enum"})
     ns = 10 if q else 16
     for p in range(ns):
-        shards.append({"kind": "scripts", "n": 3500 if q else 60000, "label": "scripts%d" % p})
+        shards.append({"kind": "scripts", "n": 3500 if q else 100000, "label": "scripts%d" % p})
     return shards
 
 
